@@ -89,9 +89,13 @@ class DataArray(Entity, DataSet):
         :rtype: nixio.SetDimension
         """
         index = len(self.dimensions) + 1
-        setdim = SetDimension.create_new(self, index)
-        if labels is not None:
-            setdim.labels = labels
+        try:
+            setdim = SetDimension.create_new(self, index)
+            if labels is not None:
+                setdim.labels = labels
+        except Exception:
+            self._discard_dimension(index)
+            raise
         if self.file.auto_update_timestamps:
             self.force_updated_at()
         return setdim
@@ -115,13 +119,18 @@ class DataArray(Entity, DataSet):
         :rtype: nixio.SampledDimension
         """
         index = len(self.dimensions) + 1
-        smpldim = SampledDimension.create_new(self, index, sampling_interval)
-        if label:
-            smpldim.label = label
-        if unit:
-            smpldim.unit = unit
-        if offset:
-            smpldim.offset = offset
+        try:
+            smpldim = SampledDimension.create_new(self, index,
+                                                  sampling_interval)
+            if label:
+                smpldim.label = label
+            if unit:
+                smpldim.unit = unit
+            if offset:
+                smpldim.offset = offset
+        except Exception:
+            self._discard_dimension(index)
+            raise
         if self.file.auto_update_timestamps:
             self.force_updated_at()
         return smpldim
@@ -143,13 +152,17 @@ class DataArray(Entity, DataSet):
         """
         index = len(self.dimensions) + 1
 
-        rdim = RangeDimension.create_new(self, index, ticks)
-        rdim.label = label
-        rdim.unit = unit
+        try:
+            rdim = RangeDimension.create_new(self, index, ticks)
+            rdim.label = label
+            rdim.unit = unit
+            if ticks is not None:
+                rdim.ticks = ticks
+        except Exception:
+            self._discard_dimension(index)
+            raise
         if self.file.auto_update_timestamps:
             self.force_updated_at()
-        if ticks is not None:
-            rdim.ticks = ticks
         return rdim
 
     def append_range_dimension_using_self(self, index=None):
@@ -181,6 +194,15 @@ class DataArray(Entity, DataSet):
         rdim = RangeDimension.create_new(self, dim_index, None)
         rdim.link_data_array(self, index)
         return rdim
+
+    def _discard_dimension(self, index):
+        """
+        Removes the descriptor a refused append_*_dimension call has left
+        behind (the call must not change the array).
+        """
+        dimgroup = self._h5group.open_group("dimensions")
+        if str(index) in dimgroup:
+            del dimgroup[str(index)]
 
     def delete_dimensions(self):
         """
